@@ -64,6 +64,12 @@ func Gen(r *rand.Rand, cfg GenConfig) *Spec {
 		}
 		nm := 1 + r.IntN(cfg.MaxMsgs)
 		long := cfg.LongLived && r.IntN(4) == 0
+		// one conversation (TCP or UDP) that stays alive far longer than the
+		// inactivity timeout without ever being idle that long
+		veryLong := cfg.LongGaps && i == 0 && r.IntN(2) == 0
+		if veryLong && nm < 4 {
+			nm = 4 + r.IntN(3)
+		}
 		dir := 0
 		if r.IntN(5) == 0 && c.Proto == "tcp" {
 			dir = 1 // server speaks first
@@ -111,6 +117,9 @@ func Gen(r *rand.Rand, cfg GenConfig) *Spec {
 			}
 			if long {
 				m.GapUS += horizon / int64(nm)
+			}
+			if veryLong && j > 0 {
+				m.GapUS = int64(60_000_000 + r.IntN(150_000_000))
 			}
 			c.Msgs = append(c.Msgs, m)
 			// mostly ping-pong, sometimes same direction again
